@@ -33,6 +33,12 @@
 EXTENDS LoaderOps
 
 (* ------------------------------------------------------------------ a small linker + loader model *)
+(* Which pointer fields are AddrPlaces does not depend on HOW the target symbol got its address: a symbol defined by
+   an assignment from another symbol (`--defsym a=b`, script `a = b;`) is address-valued like b itself (only
+   `a = <number>` is absolute).  The replay names half of the non-shared scenarios' targets through such aliases. *)
+SymDefKinds == {"direct", "alias-of-symbol", "number"}
+AddrValued(k) == k \in {"direct", "alias-of-symbol"}
+
 CONSTANTS Offs,         \* candidate offsets of pointer fields inside one input section
           Rule,         \* "code"     the rule of the tree (elf::relr_eligible, layout AND writer): RELR iff relr
                         \*            enabled, the offset in the input section is even and the section is >= 2-aligned
